@@ -370,6 +370,22 @@ pub fn increment_port_option(port: Option<u16>) -> Option<u16> {
     None
 }
 
+/// Whether two requested port options have a port in common.
+pub fn port_options_overlap(a: &Option<PortRange>, b: &Option<PortRange>) -> bool {
+    let bounds = |range: &PortRange| match range {
+        PortRange::Single(port) => (*port, *port),
+        PortRange::Range(start, end) => (*start, *end),
+    };
+    match (a, b) {
+        (Some(a), Some(b)) => {
+            let (a_start, a_end) = bounds(a);
+            let (b_start, b_end) = bounds(b);
+            a_start <= b_end && b_start <= a_end
+        }
+        _ => false,
+    }
+}
+
 /// Make sure the port is not already in use by another node.
 pub fn check_port_availability(port_option: &PortRange, nodes: &[NodeServiceData]) -> Result<()> {
     let mut all_ports = Vec::new();
